@@ -48,7 +48,7 @@ def U32 : Nat := 2 ^ 32
 /-- Error kinds (messages are never compared). -/
 inductive ErrKind
   | voteReversal | logIdReversal | nonConsecutive | indexNotFound
-  | gap | eof | invalid | locked | notFound | exists | io | sendFailed
+  | gap | eof | invalid | locked | notFound | exists | io | sendFailed | invalidInput
 deriving DecidableEq, Repr, Inhabited
 
 /-- Result of a public call: value, error, or panic at a named site. -/
